@@ -462,3 +462,80 @@ func TestVerifPollerRandom(t *testing.T) {
 		t.Fatal(err)
 	}
 }
+
+// TestVerifPollerPreempt: systematic schedules with a bounded number of context switches.  For small scripts every
+// schedule of the shape "producer A runs a steps, producer B runs b steps, the loop runs c steps, B finishes, A
+// finishes, the loop finishes" (a, b, c over all their values) is executed on the real poller and judged by the same
+// state witness.  Unlike the graph replay it does not depend on the gates matching the model step for step, so it
+// still explores a tree whose gates have moved.
+func TestVerifPollerPreempt(t *testing.T) {
+	rep := vsup.NewReport("poller-preempt")
+	rng := vsup.NewRng(vsup.Seed() + 7)
+	scripts := []map[int][]string{
+		{1: {"H"}, 2: {"L"}}, {1: {"L"}, 2: {"H"}}, {1: {"H"}, 2: {"H"}}, {1: {"L"}, 2: {"L"}},
+		{1: {"H", "H"}, 2: {"L"}}, {1: {"H", "L"}, 2: {"L"}},
+	}
+	maxC := vsup.EnvInt("VERIF_PREEMPT_LOOP_STEPS", 14)
+	runs := 0
+	for si, script := range scripts {
+		for _, thresh := range []int{1, 2} {
+			for _, first := range []int{1, 2} {
+				second := 3 - first
+				// a = steps of the first producer before the switch (100 = all of it)
+				for _, a := range []int{1000, 2, 4, 6, 9, 12} {
+					for b := 0; b <= 18; b++ {
+						for c := 0; c <= maxC; c++ {
+							if a != 1000 && (b%3 != 0 || c%2 == 1) {
+								continue // the two-preemption family is sampled more thinly
+							}
+							r, err := newPrun(script, thresh)
+							if err != nil {
+								t.Fatal(err)
+							}
+							path := []string{fmt.Sprintf("script %d thresh %d: P%d x%d, P%d x%d, loop x%d, rest", si, thresh, first, a, second, b, c)}
+							ok := r.start()
+							// producers are stepped gate by gate (also through the queue's internal gates: the window
+							// between a producer's reading of a length and its linking of the node matters), the loop
+							// from one of its own gates to the next
+							run := func(proc, n int) {
+								for k := 0; ok && k < n; k++ {
+									can := false
+									for _, p := range r.enabled() {
+										can = can || p == proc
+									}
+									if !can {
+										return
+									}
+									if proc == 0 {
+										ok = r.advance(proc)
+									} else {
+										ok = r.s.Release(proc)
+									}
+								}
+							}
+							if ok {
+								run(first, a)
+								run(second, b)
+								run(0, c)
+								run(second, 1000)
+								run(first, 1000)
+							}
+							if ok {
+								r.finish(rng, rep, path)
+							} else {
+								rep.Violation("poller/hang", "a participant did not reach its next gate while running alone", path)
+							}
+							r.stop()
+							runs++
+							rep.Eval(fmt.Sprintf("s%d-t%d-f%d-a%d-b%d-c%d", si, thresh, first, a, b, c%4))
+						}
+					}
+				}
+			}
+		}
+	}
+	rep.Set("schedules", runs)
+	if err := rep.Write(); err != nil {
+		t.Fatal(err)
+	}
+}
